@@ -30,7 +30,7 @@ pub struct CaseReport {
 impl CaseReport {
     pub fn viol(&mut self, props: &[&'static str], rule: &'static str, msg: String) {
         // Keep only the first few; after the first one the model may be out of sync
-        if self.violations.len() < 4 {
+        if self.violations.len() < 6 {
             self.violations.push(Violation {
                 props: props.to_vec(),
                 rule,
